@@ -1,8 +1,8 @@
 (* Proofs/C05_Parser.v - every parser function preserves "all bytes of the serialization satisfy P"
    for any P that holds on 0x21..0x7E (instantiated with ok_byte and with ok_or_space), one lemma per
    function of Model/Parser.v.  The opaque-path state is the only one that needs P 0x20. *)
-From RU Require Import Base.Prelude Base.Utf8 Model.AsciiSet Gen.Tables Model.PercentEncoding
-  Model.HostT Model.UrlRecord Model.Parser Proofs.ListN Proofs.C05_Enc.
+From RU Require Import Base.Prelude Base.Utf8 Base.Utf8Facts Model.AsciiSet Gen.Tables Model.PercentEncoding
+  Model.HostT Model.UrlRecord Model.Parser Proofs.ListN Proofs.C14_Set Proofs.C14_Enc Proofs.C14_Views Proofs.C05_Enc.
 
 Lemma pbind_ok {A B} (x : pres A) (f : A -> pres B) b :
   pbind x f = POk b -> exists a, x = POk a /\ f a = POk b.
@@ -16,6 +16,43 @@ Lemma of_option_ok {A} (o : option A) a : of_option o = POk a -> o = Some a.
 Proof. destruct o; cbn; intros H; [inversion H; reflexivity | discriminate]. Qed.
 Lemma of_result_ok {A} (r : result A) a : of_result r = POk a -> r = Ok a.
 Proof. destruct r; cbn; intros H; [inversion H; reflexivity | discriminate]. Qed.
+
+(* what push_encoded (= utf8_percent_encode appended to the serialization) adds, per component set.
+   `added` is in 0x21..0x7E and contains none of the listed delimiters; text = any code points. *)
+Definition adds_clean (set : aset) (D : list N) : Prop :=
+  forall ser text, exists added,
+    push_encoded set ser text = ser ++ added /\ Forall ok_byte added /\ forall d, In d D -> ~ In d added.
+
+Lemma adds_clean_of set D :
+  covers_ctl_b set = true -> covers_list set D = true -> no_pct_hex_b D = true -> adds_clean set D.
+Proof.
+  intros H1 H2 H3 ser text. eexists. split; [reflexivity|].
+  exact (pe_display_clean set D (utf8_encode text) H1 H2 H3).
+Qed.
+
+
+Lemma seg_split S D : covers_list S (37 :: D) = true -> aset_contains S 37 = true /\ covers_list S D = true.
+Proof. unfold covers_list. cbn [forallb]. intros H. apply andb_true_iff in H. exact H. Qed.
+
+Lemma path_enc_facts :
+  adds_clean T_PATH [63; 35; 32; 34; 60; 62; 96; 123; 125]
+  /\ adds_clean T_PATH_SEGMENT [47; 63; 35; 32; 34; 60; 62; 96; 123; 125]
+  /\ adds_clean T_SPECIAL_PATH_SEGMENT [92; 47; 63; 35; 32; 34; 60; 62; 96; 123; 125]
+  /\ aset_contains T_PATH_SEGMENT 37 = true /\ aset_contains T_SPECIAL_PATH_SEGMENT 37 = true
+  /\ (forall text, usv_list text ->
+        decode (pe_display T_PATH_SEGMENT (utf8_encode text)) = utf8_encode text
+        /\ decode (pe_display T_SPECIAL_PATH_SEGMENT (utf8_encode text)) = utf8_encode text).
+Proof.
+  destruct (seg_split _ _ (proj2 T_PATH_SEGMENT_facts)) as [A1 B1].
+  destruct (seg_split _ _ (proj2 T_SPECIAL_PATH_SEGMENT_facts)) as [A2 B2].
+  split; [apply adds_clean_of; [apply T_PATH_facts | apply T_PATH_facts | reflexivity]|].
+  split; [apply adds_clean_of; [apply T_PATH_SEGMENT_facts | exact B1 | reflexivity]|].
+  split; [apply adds_clean_of; [apply T_SPECIAL_PATH_SEGMENT_facts | exact B2 | reflexivity]|].
+  split; [exact A1|]. split; [exact A2|].
+  intros text Hu. pose proof (utf8_encode_bytes text Hu) as Hb.
+  rewrite !pe_display_is_encode by exact Hb.
+  split; apply decode_encode; assumption.
+Qed.
 
 Definition okl (P : N -> Prop) (l : list N) : Prop := Forall P l.
 
